@@ -326,10 +326,16 @@ func CodeQuoteBegin(l *lexer) stateFn {
 }
 */
 func DirectiveUnionState(l *lexer) stateFn {
-	//skip space
+	//skip space, line breaks and comments
 	for {
+		if strings.HasPrefix(l.input[l.end:], "//") || strings.HasPrefix(l.input[l.end:], "/*") {
+			if CommentState(l) == nil {
+				return nil
+			}
+			continue
+		}
 		r := l.next()
-		if r != ' ' && r != '\t' {
+		if r != ' ' && r != '\t' && r != '\n' {
 			break
 		}
 	}
